@@ -1420,10 +1420,27 @@ func (s *BgpServer) processRTCMembership(peer *peer, path *table.Path) {
 	fs := peerNonRTCFamilies(peer)
 	s.rtcVPNCandidates(peer, path.IsWithdraw, rt, fs, func(paths []*table.Path, filtered []*table.Path) {
 		if path.IsWithdraw {
-			// Skips filtering: paths are already scoped to this RT and withdrawals
-			// do not need path attributes.
-			peer.updateRoutes(filtered...)
-			sendfsmOutgoingMsg(peer, filtered)
+			// Withdraw what the peer holds and is no longer interested in. The
+			// candidates are scoped to this RT (or, for the default membership,
+			// are everything the remaining memberships do not cover), but a
+			// candidate may still match another membership of the peer, and it
+			// may never have been advertised (e.g. a withdrawal of a membership
+			// that was not announced).
+			withdrawals := make([]*table.Path, 0, len(filtered))
+			for _, p := range filtered {
+				if p == nil || p.IsEOR() {
+					continue
+				}
+				if peer.interestedIn(p) || !peer.hasPathAlreadyBeenSent(p) {
+					continue
+				}
+				if !p.IsWithdraw {
+					p = p.Clone(true)
+				}
+				withdrawals = append(withdrawals, p)
+			}
+			peer.updateRoutes(withdrawals...)
+			sendfsmOutgoingMsg(peer, withdrawals)
 			return
 		}
 		if peer.getRtcEORWait() {
